@@ -26,6 +26,8 @@ MODELS = {
     "MC_Math": {"module": "MC_Math", "quick": "MC_Math.cfg", "thorough": "MC_Math_thorough.cfg", "workers": 8, "timeout_quick": 300, "timeout_thorough": 1800,
                 "sample": "formula lemmas on a grid (reserves, offer, supply, fee, tolerance): product monotone, round trip never profits, mint/withdraw "
                           "never dilute, tolerance predicates monotone, proportional deposits accepted, penalty bound/formula/decay/shares"},
+    "MC_AuthObj": {"module": "MC_AuthObj", "quick": "MC_AuthObj.cfg", "thorough": "MC_AuthObj.cfg", "workers": 1, "timeout_quick": 120,
+                   "sample": "complete graph of farm expand/close and position create-for/expand/close/withdraw/emergency x 5 sender roles x every state of (farm, position)"},
     "MC_Pool": {"module": "MC_Pool", "quick": "MC_Pool.cfg", "thorough": "MC_Pool_thorough.cfg",
                 "workers": 10, "timeout_quick": 600, "timeout_thorough": 3000,
                 "sample": "two constant-product pools sharing a denom, exact integer formulas with fees; deposits, single-asset "
@@ -68,6 +70,13 @@ def auth_edges(seed, tier, tdir):
     m = re.search(r"(\d+) states generated, (\d+) distinct states found", p.stdout)
     if "violated" in p.stdout or "Error" in p.stdout or not out or not m:
         raise RuntimeError("MC_Auth failed:\n" + p.stdout[-3000:])
+    # second graph: farm- and position-level authorisation
+    cmd2 = cmd[:-2] + ["MC_AuthObj.cfg", "MC_AuthObj.tla"]
+    p2 = subprocess.run(cmd2, cwd=SPEC, capture_output=True, text=True)
+    out2 = [json.loads(l.strip()[len('<<"EDGE", '):-2]) for l in p2.stdout.splitlines() if l.startswith('<<"EDGE", ')]
+    if "violated" in p2.stdout or "Error" in p2.stdout or not out2:
+        raise RuntimeError("MC_AuthObj failed:\n" + p2.stdout[-3000:])
+    out += out2
     path = os.path.join(tdir, "auth_edges.ndjson")
     open(path, "w").write("\n".join(out) + "\n")
     return {"args": ["--edges", path],
@@ -94,7 +103,7 @@ PROPS = {
     "C12": {"level": "model_checking", "models": [], "families": ["pool"]},
     "C13": {"level": "model_checking", "models": ["MC_Math"], "families": ["pool"]},
     "C14": {"level": "model_checking", "models": ["MC_Pool", "MC_Exec"], "families": ["pool", "fault"]},
-    "C15": {"level": "model_checking", "models": ["MC_Auth"], "families": ["auth", "farm", "pool", "epoch"], "exhaustive": True,
+    "C15": {"level": "model_checking", "models": ["MC_Auth", "MC_AuthObj"], "families": ["auth", "farm", "pool", "epoch"], "exhaustive": True,
             "assumptions": ["exhaustive refers to the ownership/config/toggle matrix of MC_Auth (every edge replayed); farm- and position-level "
                             "authorisation is judged on the farm/pool traces (C15_* guards), which are sampled"]},
     "C16": {"level": "model_checking", "models": [], "families": ["pool"]},
@@ -103,7 +112,7 @@ PROPS = {
     "C05": {"level": "model_checking", "models": ["MC_FarmLife"], "families": ["farm"]},
     "C06": {"level": "model_checking", "models": ["MC_Farm", "MC_FarmLife"], "families": ["farm"]},
     "C07": {"level": "model_checking", "models": ["MC_Farm"], "families": ["farm"]},
-    "C08": {"level": "model_checking", "models": ["MC_FarmLife"], "families": ["farm"]},
+    "C08": {"level": "model_checking", "models": ["MC_FarmLife"], "families": ["farm", "pool"]},
     "C09": {"level": "model_checking", "models": ["MC_FarmLife", "MC_Math"], "families": ["farm"]},
     "C10": {"level": "model_checking", "models": ["MC_Farm"], "families": ["farm", "pool"]},
     "C11": {"level": "model_checking", "models": ["MC_FarmLife"], "families": ["farm"]},
